@@ -152,16 +152,16 @@ func main() {
 		return
 	}
 	r := lib.NewRng(a.Seed)
-	nIntn, nSample, nHist := 20000, 6000, 500
+	nIntn, nSample, nHist := 30000, 10000, 3000
 	if a.Tier == "thorough" {
-		nIntn, nSample, nHist = 200000, 60000, 5000
+		nIntn, nSample, nHist = 300000, 100000, 30000
 	}
 	genIntn(r.Fork(), nIntn)
 	genSample(r.Fork(), nSample)
 	hr := r.Fork()
-	for i := 0; i < nHist; i++ {
+	for i := 0; i < nHist && deadlineHits < 2; i++ {
 		runHist("", genHist(hr))
 	}
-	fmt.Printf("NOTE histories=%d rounds dropped because the previous round was more than 2 s ago=%d histories dropped entirely=%d malformed datagrams at the peer=%d\n",
-		nHist, slowRounds, abandoned, thePeer.bad)
+	fmt.Printf("NOTE histories=%d rounds dropped because their history was already more than 2 s old=%d histories dropped entirely=%d rounds that ran into their 10 s context deadline=%d malformed datagrams at the peer=%d\n",
+		nHist, slowRounds, abandoned, deadlineHits, thePeer.bad)
 }
